@@ -21,3 +21,4 @@ def rules(ctx):
     S.root_pair_rules(ctx)
     S.separator_cut_rules(ctx)
     S.leaf_width_rules(ctx)
+    S.after_bound_rules(ctx)
